@@ -2,6 +2,7 @@
 from lib.facts import norm, place_fields, direct_place, const_int, nophi, origins
 from lib import tables
 
+INLINE = True      # crate-local helpers the rules do not know by name are inlined into their callers (lib/inline.py)
 EXPLANATION = (
     "Code-level necessary conditions of the broadcast protocol, each decided on every CFG path: R06.1 the reference "
     "count, the send loop bound and the result-slot count derive from the same aux_threads; one send per iteration; "
